@@ -19,6 +19,7 @@
                   perfect squares and give exactly the C.3.3 answer below 2^15 (evaluated here with TLC integers);
      generated primes have exactly the requested size and are odd (safe primes: = 3 mod 4). *)
 EXTENDS BigInt, Json, IOUtils
+LOCAL INSTANCE SequencesExt
 Traces == JsonDeserialize(IOEnv.TRACE_FILE)
 
 IsBytes(bs) == \A i \in 1..Len(bs) : bs[i] \in 0..255
@@ -75,16 +76,19 @@ ASSUME SLucas(16109) = 1 /\ SLucas(18971) = 1 /\ SLucas(16111) = 1 /\ SLucas(161
 
 \* one Miller-Rabin round (FIPS 186-4 C.3.1 steps 4.3-4.7) for base b, certified by c = [chain, r, sq]:
 \* "witness" (b proves n composite), "liar" (round passes) or "bad" (certificate refused)
-RECURSIVE MrSquarings(_,_,_,_,_,_)
-MrSquarings(n, nm1, z, sq, j, a) == \* j-th squaring of at most a - 1
-   IF j > a - 1 THEN "witness"
-   ELSE IF j > Len(sq) THEN "bad"
-   ELSE IF ~(BnIsNat(sq[j].q) /\ BnIsNat(sq[j].v) /\ BnIsModWitness(BnMul(z, z), n, sq[j].q, sq[j].v)) THEN "bad"
-   ELSE IF sq[j].v = nm1 THEN "liar" ELSE IF sq[j].v = <<1>> THEN "witness" ELSE MrSquarings(n, nm1, sq[j].v, sq, j + 1, a)
+\* the at most a - 1 squarings of step 4.5, folded over the recorded links (iteratively: a can be several hundred, e.g. for squares of
+\* Mersenne primes); state <<"run" | "liar" | "witness" | "bad", z, squarings done>>
+MrSquarings(n, nm1, z0, sq, a) ==
+   LET st == FoldLeft(LAMBDA s, l : IF s[1] # "run" \/ s[3] >= a - 1 THEN s
+                                    ELSE IF ~(BnIsNat(l.q) /\ BnIsNat(l.v) /\ BnIsModWitness(BnMul(s[2], s[2]), n, l.q, l.v)) THEN <<"bad", s[2], s[3]>>
+                                    ELSE IF l.v = nm1 THEN <<"liar", l.v, s[3] + 1>> ELSE IF l.v = <<1>> THEN <<"witness", l.v, s[3] + 1>>
+                                    ELSE <<"run", l.v, s[3] + 1>>,
+                      <<"run", z0, 0>>, sq)
+   IN IF st[1] # "run" THEN st[1] ELSE IF st[3] >= a - 1 THEN "witness" ELSE "bad"
 MrRound(n, c) == LET nm1 == BnSub(n, <<1>>)  a == BnTz(nm1)  m == BnShr(nm1, a)  b == c.b IN
    IF ~(BnIsNat(b) /\ BnIsNat(c.r) /\ BnCmp(b, <<2>>) >= 0 /\ BnCmp(b, BnSub(n, <<2>>)) <= 0) THEN "bad"
    ELSE IF ~BnIsPowMod(b, m, n, c.chain, c.r) THEN "bad"
-   ELSE IF c.r = <<1>> \/ c.r = nm1 THEN "liar" ELSE MrSquarings(n, nm1, c.r, c.sq, 1, a)
+   ELSE IF c.r = <<1>> \/ c.r = nm1 THEN "liar" ELSE MrSquarings(n, nm1, c.r, c.sq, a)
 \* every distinct base any back-end drew is certified once per record: rr[i] = the round with base e.certs[i].b
 Rounds(e) == IF e.fam = "prime" /\ e.op = "miller_rabin_test" /\ e.truth = "composite" /\ BnIsNat(e.cand) /\ BnIsOdd(e.cand) /\ BnCmp(e.cand, <<3>>) > 0
              THEN TLCEval([i \in 1..Len(e.certs) |-> MrRound(e.cand, e.certs[i])]) ELSE <<>>
